@@ -209,3 +209,4 @@ fn c06_octal_escape_3() {
     octal_escape_for("001", &[0, 0]);
     octal_escape_for("52", &[5, 2]);
 }
+
